@@ -88,6 +88,6 @@ func TestC02(t *testing.T) {
 		if h.Thorough() {
 			cfg.MaxDepth, cfg.MaxFields, cfg.MaxElems, cfg.ManyFields = 4, 6, 6, true
 		}
-		hh.Sub(h, mode, h.N(30000, 150000), func(rt *rapid.T) model.Case { return model.GenCase(rt, cfg) }, propC02(reps))
+		hh.Sub(h, mode, h.N(30000, 60000), func(rt *rapid.T) model.Case { return model.GenCase(rt, cfg) }, propC02(reps))
 	}
 }
